@@ -163,6 +163,12 @@ def check(chk):
     fin = [n for n in body_walk(fc) if isinstance(n, ast.Try) and n.finalbody]
     chk.judge(len(fin) == 1 and 'host._currently_handling_node_up = False' in ' '.join(src(x) for x in fin[0].finalbody), 'C25.flag', fc,
               '_on_up_future_completed resets the flag in finally', 'flag not reset when pool creation fails')
+    g3 = CFG(fc)
+    fl3 = Flow(g3, 'held', lambda n, c: 'reset' if (n.kind == 'stmt' and src(n.ast) == 'host._currently_handling_node_up = False') else c)
+    outs = [(fa, c) for fa, c in fl3.at(g3.exit) if fa.knows('futures') is not True]
+    bad3 = [fl3.witness(g3.exit, (fa, c))[-4:] for fa, c in outs if c != 'reset']
+    chk.judge(bool(outs) and not bad3, 'C25.flag', fc, 'once the last pool future completed, every exit (success, failed pool, exception result) resets the flag (%d exit states)' % len(outs),
+              'an exit of _on_up_future_completed leaves _currently_handling_node_up set (%s): every later on_up for this host returns at once, the reconnector has been cleared, and the node stays down for good' % (bad3[:1],))
     s = src(fc)
     chk.judge(s.count('self._cleanup_failed_on_up_handling(host)') == 2, 'C25.flag', fc, 'failed pool creation cleans up (pools removed, reconnector restarted)', 'failed on_up handling is not cleaned up')
     cu = cl.func('Cluster._cleanup_failed_on_up_handling')
